@@ -181,14 +181,23 @@ func runIso(ctx *core.RunCtx) {
 	// solo runs (each under a scheduler of its own, one after the other)
 	solo := make([][]string, n)
 	soloOut := make([]string, n)
-	for pass := 0; pass < 2; pass++ {
-		for i := range srcs {
-			if (opts[i] == 0) == (pass == 0) {
-				solo[i], soloOut[i] = runSolo(srcs[i], i+1, opts[i])
+	var soloWarn []string
+	doSolo := func() {
+		for pass := 0; pass < 2; pass++ {
+			for i := range srcs {
+				if (opts[i] == 0) == (pass == 0) {
+					solo[i], soloOut[i] = runSolo(srcs[i], i+1, opts[i])
+				}
 			}
 		}
+		soloWarn = readWarnings()
 	}
-	soloWarn := readWarnings()
+	// In a fresh process the interleaved phase comes first: what is set up on first use is then set
+	// up by tasks that run on different goroutines with nothing ordering them.
+	interleavedFirst := ctx.Mode == "fresh"
+	if !interleavedFirst {
+		doSolo()
+	}
 	// interleaved
 	s := core.NewSched(ctx.Sch, 200000)
 	s.Begin()
@@ -210,6 +219,10 @@ func runIso(ctx *core.RunCtx) {
 	}
 	st := s.Stats()
 	s.Release()
+	gotWarn := readWarnings()
+	if interleavedFirst {
+		doSolo()
+	}
 	ctx.Count("fault.handoff-order(non-default decisions)", int64(st.NonDefault))
 	ctx.Count("runtimes", int64(n))
 	for f := range feats {
@@ -226,7 +239,7 @@ func runIso(ctx *core.RunCtx) {
 		ctx.Fail("C20", "C20.V7", "leak", "task leaked: %s", leak)
 		return
 	}
-	if gotWarn := readWarnings(); strings.Join(gotWarn, "\n") != strings.Join(soloWarn, "\n") {
+	if strings.Join(gotWarn, "\n") != strings.Join(soloWarn, "\n") {
 		ctx.Fail("C20", "C20.S1", "warnings-differ-from-solo", "warnings written when interleaved %q differ from the warnings of the solo runs %q", gotWarn, soloWarn)
 		return
 	}
